@@ -208,6 +208,16 @@ class C02World:
         c = self.client
         name = op["op"]
         types = op.get("types", [])
+        # (for the duration of this call the manager may be momentarily not reading: finite send waits of the client expire)
+        self.cs.busy_sends = int(op.get("busy", 0))
+        try:
+            return self._apply(op, c, name, types)
+        finally:
+            self.cs.busy_sends = 0
+
+    def _apply(self, op, c, name, types):
+        from pyrtma.exceptions import InvalidSubscription
+
         sub0, paused0 = self.reported()
         was_all = c._sub_all if hasattr(c, "_sub_all") else (ALL in sub0)
         all_state = ALL in sub0
@@ -383,6 +393,8 @@ def _st_op():
                   st.sampled_from(["list", "tuple", "generator"])).map(
             lambda x: {"op": x[0], "types": x[1], "bad": x[2], "bad_at": x[3], "container": x[4]}),
         st.sampled_from(BULK).map(lambda n: {"op": n}),
+        st.tuples(st.sampled_from(OPS + BULK), st_types(), st.sampled_from([1, 2, 6])).map(
+            lambda x: {"op": x[0], "types": x[1], "busy": x[2]} if x[0] in OPS else {"op": x[0], "busy": x[2]}),
         st.tuples(st.sampled_from(CTX), st_types(), st.booleans()).map(lambda x: {"op": x[0], "types": x[1], "probe_inside": x[2]}),
         st.tuples(st.sampled_from(CTX), st_types(), st.booleans(), st.sampled_from(["exception", "exception", "base-exception"])).map(
             lambda x: {"op": x[0], "types": x[1], "probe_inside": x[2], "leave": x[3]}),
